@@ -97,12 +97,12 @@ CHECKS['C03'] = dict(
     parallel=8,
 )
 
-MD = [0x007, 0x038, 0x1c0, 0xe00]
+MD = [0x007, 0x038, 0x1c0, 0xe00, 0x3000]
 CHECKS['C04'] = dict(
     title="dispatch reaches exactly the dispatched event's listeners, arguments intact",
     level='exploration',
-    rule='12 dispatcher configurations (keys: int, enum class, std::string, OrdKey(<)->std::map, HashKey(hash,==)->unordered_map with 4 buckets; prototypes by value / const& / & ; '
-         'include- and exclude-event forms; getEvent policies reading a field and a by-value movable argument; user map; custom Callback; 3 threading policies) x seeded histories of '
+    rule='14 dispatcher configurations (keys: int, enum class, std::string, OrdKey(<)->std::map, HashKey(hash,==)->unordered_map with 4 buckets; prototypes by value / const& / & ; '
+         'include- and exclude-event forms; getEvent policies reading a field, a by-value movable argument (taken by const& and BY VALUE) and a non-identity policy in the exclude-event form; user map; custom Callback; 3 threading policies) x seeded histories of '
          'append/prepend/insert/remove/hasAnyListener/ownsHandle/forEach/forEachIf per key over 5 keys (differing only in case/length, empty) interleaved with dispatches whose arguments are '
          'lvalues, const lvalues and temporaries; listeners consume whatever they receive as rvalues; every listener call is checked (which listener, order, argument fingerprints) online; '
          'built with g++ AND clang++ (opposite argument evaluation orders); non-trivial = >=1 successful remove and >=1 dispatch reaching >=2 listeners; distinct = trace hash',
@@ -114,13 +114,13 @@ CHECKS['C04'] = dict(
     level_note='Trusted: model, generator; two compilers sample the unspecified-evaluation-order dimension.',
 )
 
-MQ = [0x03, 0x0c, 0x30, 0x40]
+MQ = [0x03, 0x0c, 0x30, 0x40, 0x300]
 CHECKS['C05'] = dict(
     title='EventQueue consumes every queued event exactly once, in FIFO order',
     level='exploration',
     rule='seeded single-threaded histories (50-200 ops) of enqueue/process/processOne/processIf/processUntil/peekEvent/takeEvent/dispatch(QueuedEvent)/'
-         'clearEvents/emptyQueue/listener changes, with operations issued from inside listeners and predicates (depth<=2), 7 queue configurations '
-         '(int/std::string keys, by-value/by-reference/move-only payloads, include/exclude-event forms, getEvent policy, ordered lists); the model '
+         'clearEvents/emptyQueue/listener changes, with operations issued from inside listeners and predicates (depth<=2), 9 queue configurations '
+         '(int/std::string keys, by-value/by-reference/move-only payloads, include/exclude-event forms, getEvent policies incl. non-identity in the exclude form and by-value parameter with temporaries, ordered lists); the model '
          'predicts the next callback (listener, predicate or return) and every real callback is compared with it; per-event state machine and payload '
          'ledger; non-trivial = >=1 processing call with events and (>=1 re-queued event or >=1 nested operation); distinct = trace hash',
     jobs=JS('drv_queue', 'asan', 'c05', 2100, 100000, MQ, shards=4) + JS('drv_queue', 'plain', 'c05', 4200, 200000, MQ, seed_offset=1, shards=4),
@@ -173,8 +173,11 @@ CHECKS['C08'] = dict(
     rule='lifetime mode of the C01/C02/C10 list histories and the C05/C10 queue histories: long histories with heavy removal during invocation, recycled queue '
          'slots, copy/move/swap of containers holding content, destruction of containers with content; every callback/payload object is a counted type: double '
          'destruction, use after destruction and, at every quiescent point, live instances != model content are violations; LeakSanitizer at exit; '
-         'non-trivial/distinct as in C02/C05',
-    jobs=JS('drv_cblist', 'asan', 'c08', 4000, 80000, M4, shards=4) + JS('drv_queue', 'asan', 'c08', 4200, 80000, MQ, seed_offset=2, shards=4),
+         'the "exceptions" part of the statement is covered by running the C09 fault enumeration (ledger after every injected fault), the AnyData holder by the C17 driver; '
+         'non-trivial/distinct as in C02/C05/C09/C17',
+    jobs=JS('drv_cblist', 'asan', 'c08', 4000, 80000, M4, shards=4) + JS('drv_queue', 'asan', 'c08', 4200, 80000, MQ, seed_offset=2, shards=4)
+         + JS('drv_fault', 'asan17-fault', '', 480, 8000, [0x03, 0x0c, 0x30, 0xc0], seed_offset=3, shards=4, shards_thorough=8)
+         + JS('drv_anydata', 'asan17', 'random', 9000, 300000, [1, 2, 4], macro='VF_CAP_MASK', seed_offset=4, shards=3, shards_thorough=5),
     assumptions=['a removed callback must be released by the next quiescent point (no invocation in progress)'],
     technique='instance ledger of counted callback/payload types checked at every quiescent point + ASan/LeakSanitizer, driven by the list and queue monitors in lifetime mode',
     level_text='Exploration: the ledger knows every live instance by kind and id; after each top-level operation the live set must equal what the model says the containers hold, and after destruction it must be empty.',
@@ -294,9 +297,11 @@ CHECKS['C15'] = dict(
     rule='pool of 3-5 ScopedRemover objects (some default-constructed) over 2 instances of CallbackList / EventDispatcher / EventQueue (6 configurations incl. SingleThreading); operations: add via '
          'remover and directly, remove via remover and directly, reset, setDispatcher/setCallbackList (same and other instance), move-construct, move-assign into empty and non-empty removers, swap, '
          'destroy in any order, some issued from inside callbacks; after every operation every target is triggered and the callbacks that run are compared with the model (responsibility sets, limbo groups '
-         'for what a move-assignment destination held: either resolution accepted until the deadline); non-trivial = >=1 move-assignment or swap between removers and >=1 remover destroyed while responsible '
+         'for what a move-assignment destination held: either resolution accepted until the deadline); plus the remover family of the C09 fault enumeration (an allocation failure or throwing copy while a '
+         'listener is being added through a remover must not leave it attached and unrecorded); non-trivial = >=1 move-assignment or swap between removers and >=1 remover destroyed while responsible '
          'for an attached listener; distinct = trace hash',
-    jobs=[J('drv_remover', 'asan17', '', 60000, 2000000, shards=8, shards_thorough=16), J('drv_remover', 'clang-asan17', '', 20000, 600000, seed_offset=1, shards=8, shards_thorough=16)],
+    jobs=[J('drv_remover', 'asan17', '', 60000, 2000000, shards=8, shards_thorough=16), J('drv_remover', 'clang-asan17', '', 20000, 600000, seed_offset=1, shards=8, shards_thorough=16),
+          J('drv_fault', 'asan17-fault', '', 960, 16000, defs=['-DVF_CFG_MASK=0xc0'], opts={'kind': '6'}, seed_offset=2, shards=8, shards_thorough=16)],
     assumptions=['a moved-from remover has an unknown target until re-targeted', 'wrong-key / foreign-handle removals are not generated (documented preconditions)'],
     technique='online differential monitor with responsibility model (M-remover), g++ and clang++, ASan+UBSan',
     level_text='Exploration: hundreds of thousands of remover histories; every target is dispatched after every operation so an orphaned or prematurely detached listener shows at once.',
@@ -368,11 +373,11 @@ def _c20_jobs():
     jobs = []
     for v in allv:
         tiers = ('quick', 'thorough') if v in quick else ('thorough',)
-        for drv, mask in (('drv_cblist', 0x100), ('drv_dispatch', 0x1000), ('drv_queue', 0x80)):
+        for drv, mask in (('drv_cblist', 0x100), ('drv_dispatch', 0x8000), ('drv_queue', 0x80)):
             jobs.append(J(drv, v, 'c20', 1200, 8000, defs=['-DVF_CFG_MASK=0x%x' % mask], shards=4, shards_thorough=4, tiers=tiers))
     # prior memory: plain -O0 builds with the pool storage left UNDEFINED, under valgrind memcheck (uninitialised reads are fatal)
     vg = ['valgrind', '-q', '--error-exitcode=99', '--undef-value-errors=yes', '--track-origins=no']
-    for drv, mask in (('drv_cblist', 0x100), ('drv_dispatch', 0x1000), ('drv_queue', 0x80)):
+    for drv, mask in (('drv_cblist', 0x100), ('drv_dispatch', 0x8000), ('drv_queue', 0x80)):
         jobs.append(J(drv, 'm-gcc-11-O0', 'c20', 16, 400, defs=['-DVF_CFG_MASK=0x%x' % mask], opts={'noprefill': '1'}, wrapper=vg, seed_offset=7, shards=8, shards_thorough=16, label='memcheck'))
     return jobs
 
